@@ -422,8 +422,19 @@ func oneC15(cfg c15Cfg) (viol string, miss string) {
 		}
 	} else {
 		// (ii) nothing is removed and nothing fires until DeleteExpired is called
+		// The window is 60 ms; when constructing these caches raised the goroutine count (which by itself is NOT a
+		// violation: the property speaks about removals, not goroutines) somebody may be sweeping on a period of
+		// his own, so the caches are watched for 2.5 s instead.
+		window := 60 * time.Millisecond
+		if n := runtime.NumGoroutine(); n > base {
+			time.Sleep(5 * time.Millisecond)
+			if n = runtime.NumGoroutine(); n > base {
+				window = 2500 * time.Millisecond
+				stats.Inc("no_janitor_configs_watched_longer_because_goroutines_appeared")
+			}
+		}
 		t0 := time.Now()
-		for time.Since(t0) < 60*time.Millisecond {
+		for time.Since(t0) < window {
 			for i, c := range caches[:cfg.Caches] {
 				if n := c.Count(); n != total {
 					return fmt.Sprintf("cleanup interval %dms (no janitor configured) but cache %d went from %d to %d entries on its own", cfg.Interval, i, total, n), ""
